@@ -15,6 +15,10 @@ ObjM == << <<"a", "int", "", WOf(1)>>, <<"c", "str", "z", W0>> >>
 \* an object carrying members of the JSON types the scalar setters cannot create
 ObjText2 == "{\"r\":1.5,\"n\":null,\"o\":{\"x\":1},\"l\":[true]}"
 ObjM2 == << <<"l", "arr", "[true]", W0>>, <<"n", "null", "null", W0>>, <<"o", "obj", "{\"x\":1}", W0>>, <<"r", "real", "real", W0>> >>
+\* an object whose member "o" is again an object, with other keys than ObjText2's: a whole-object set with
+\* replace overwrites the stored "o", it does not merge into it
+ObjText3 == "{\"o\":{\"y\":2}}"
+ObjM3 == << <<"o", "obj", "{\"y\":2}", W0>> >>
 V(t, name, val, replace, jcls, jm, jcanon) ==
   [t |-> t, name |-> name, val |-> val, replace |-> replace, jcls |-> jcls, jm |-> jm, jcanon |-> jcanon]
 
@@ -30,6 +34,7 @@ Jsons == { V("json", n, ObjText, r, "obj", ObjM, ObjText) : n \in Names, r \in {
     \cup { V("json", n, "{\"a\":1,\"a\":2}", r, "malformed", <<>>, NONE) : n \in {"b", NONE}, r \in {0, 1} }
     \cup { V("json", n, NONE, r, "null", <<>>, NONE) : n \in {"a", NONE}, r \in {0} }
     \cup { V("json", NONE, ObjText2, r, "obj", ObjM2, ObjText2) : r \in {0, 1} }
+    \cup { V("json", NONE, ObjText3, r, "obj", ObjM3, ObjText3) : r \in {0, 1} }
 Gets == { V(t, n, IF t = "int" THEN W0 ELSE NONE, 0, NONE, <<>>, NONE) : t \in {"int", "str", "bool", "json"}, n \in Names \cup {"r", "n", "o", "l"} }
 Dels == { V("int", n, W0, 0, NONE, <<>>, NONE) : n \in Names }
 
